@@ -456,6 +456,8 @@ def execute(ctx, prog, nthreads, ntasks, strategy, strat_kind, sseed, plan_of=No
         if len(order) < sum(len(v) for v in lock_ops.values()):
             # fewer outermost acquisitions than operations: some mutator ran without the lock
             ctx.hist("lock_acquisitions_missing", "yes")
+    ctx.distinct("lock_acquisition_orders", (repr(prog), tuple(order)))
+    ctx.distinct("schedules(choice sequences)", tuple(sched.choices or ()))
     inside = sched.yield_counts.get("instr", 0)
     ctx.count("mon.switches_inside_mutators", sched.switches)
     ctx.hist("strategy", strat_kind)
